@@ -759,14 +759,27 @@ def p18_handle_delegation(ctx):
         r.add(f, "Writer::%s is called on self.writer.lock()" % wm, locked, where(b, cbb), origin_str(recv)[:80])
         rets = ret_classes(b, 0, lambda e: e.kind == "unwind")
         bad = []
+        site = (b.path, cbb)
+        from_site = lambda o: o is not None and bool(origin_mentions(o, lambda x: x[0] == "call" and x[3] == site))
         for c, d, rb in rets:
+            o = ret_origin(b, d)
             if c == "err":
-                o = ret_origin(b, d)
                 if o is not None and "Closed" in origin_str(o):
+                    continue
+                # `writer.delete(key)?`: the error of the delegation itself, passed on
+                if from_site(o) and not origin_mentions(o, lambda x: x[0] == "call" and x[3] != site and x[1] not in ("std::ops::FromResidual::from_residual", "std::ops::Try::branch")):
                     continue
                 bad.append(c)
             elif c == "pass" and d == (cbb, "T"):
                 continue
+            elif c == "ok" and o is not None:
+                # `Ok(writer.delete(key)?)`: the Continue payload of the delegation, re-wrapped as is
+                po = peel_var(o)
+                pl = list(po[4].values())[0] if po[0] == "agg" and po[4] else None
+                pp = peel(pl) if pl is not None else None
+                if pp is not None and pp[0] == "field" and pp[1][0] == "variant" and pp[1][2] == "Continue" and from_site(pl) and not origin_mentions(pl, lambda x: x[0] == "call" and x[3] != site):
+                    continue
+                bad.append(c)
             else:
                 bad.append(c)
         r.add(f, "returns the writer's result unchanged (or Err(Closed))", not bad, where(b, cbb), "" if not bad else "a return value is produced outside the delegation: %s" % bad)
